@@ -329,7 +329,10 @@ class CallMixin(object):
         if ct is not None:
             self.call_contract(ct, [obj] + args, kwargs, st)
         elif args or kwargs:
-            raise OutsideSubset('constructor %s: no contract' % cls)
+            init = self.find_helper(cls, '__init__')
+            if init is None or self.spec_mode:
+                raise OutsideSubset('constructor %s: no contract' % cls)
+            self.inline_helper(init, [obj] + args, kwargs, st)      # a plain __init__ of the repository runs as part of the caller
         return obj
 
     def finish_nav(self, nav, args, st):
